@@ -1,7 +1,7 @@
 # Various node visitors to clean up nested function calls of various types.
 import ast
 import copy
-from typing import List, Tuple, Union, cast
+from typing import Dict, List, Tuple, Union, cast
 
 from func_adl.ast.call_stack import argument_stack, stack_frame
 from func_adl.ast.func_adl_ast_utils import (
@@ -220,6 +220,7 @@ class simplify_chained_calls(FuncADLNodeTransformer):
     def __init__(self):
         self._arg_stack = argument_stack()
         self._reserved_names = False
+        self._called_attributes: Dict[int, ast.Attribute] = {}
 
     def visit(self, node: ast.AST):
         # Names of the form `arg_N` already present in the query (e.g. it was simplified
@@ -547,6 +548,10 @@ class simplify_chained_calls(FuncADLNodeTransformer):
         elif _is_method_call_on_first(call_node):
             return self.select_method_call_on_first(call_node)
         else:
+            if isinstance(call_node.func, ast.Attribute):
+                # `obj.method(...)`: the attribute is the method being called, not a value
+                # that is read from `obj` (see `visit_Attribute`).
+                self._called_attributes[id(call_node.func)] = call_node.func
             return FuncADLNodeTransformer.visit_Call(self, call_node)
 
     def visit_Lambda(self, node: ast.Lambda):
@@ -686,10 +691,18 @@ class simplify_chained_calls(FuncADLNodeTransformer):
         if is_call_of(node.value, "First"):
             return self.visit_Attribute_Of_First(node.value.args[0], node.attr)  # type: ignore
 
+        is_method = self._called_attributes.get(id(node)) is node
         visited_value = self.visit(node.value)
         if isinstance(visited_value, ast.Dict):
             r = self.visit_Subscript_Dict_with_value(visited_value, node.attr)
             if r is not None:
                 return r
+
+        # The `First` may only show up once the value has been resolved (an argument of an
+        # earlier Select was substituted) - same as for a subscript.
+        if is_call_of(visited_value, "First") and not is_method:
+            return self.visit_Attribute_Of_First(
+                visited_value.args[0], node.attr  # type: ignore
+            )
 
         return ast.Attribute(value=visited_value, attr=node.attr, ctx=ast.Load())
